@@ -208,7 +208,7 @@ def run(ctx):
     # ------------------------------------------------------------------ harness runs
     t0 = time.time()
     sruns, nscripts = _scripted_runs(scripts, ctx.seed, None)
-    nreal = 70 if q else 700
+    nreal = 70 if q else 400
     rruns = _real_runs(ctx.seed, nreal, 100000)
     jobs = []
     nsh = 4 if q else 12
